@@ -175,6 +175,38 @@ type CheckDef struct {
 
 var checks = map[string]*CheckDef{}
 
+// Which of the rarely touched groups of package globals the cases of a check modify. A snapshot
+// unit of the export file that had to be stubbed (its variable no longer exists in that form in
+// the tree under check) only matters to the checks that modify that group: for the others the
+// variable keeps its initial value for the whole process and restoring it is a no-op.
+var checkTouches = map[string][]string{
+	"C01": {"registry"}, "C03": {"registry"}, "C06": {"registry", "widths"}, "C09": {"registry", "paths"}, "C11": {"registry"},
+	"C13": {"registry"}, "C15": {"registry"}, "C17": {"registry"}, "C18": {"paths"},
+}
+
+var snapUnitGroup = map[string]string{
+	"verifSnapAllLevels": "registry", "verifSnapLevelToString": "registry", "verifSnapStringToLevel": "registry", "verifSnapShortTagMap": "registry",
+	"verifSnapLevelColors": "registry", "verifSnapLevelIsEnabledAs": "registry", "verifSnapLevelUseErrorDevice": "registry",
+	"verifSnapKnownPathMap": "paths", "verifSnapKnownPathRegexpMap": "paths", "verifSnapCodeHosting": "paths", "verifSnapWidths": "widths",
+}
+
+// degradedFor returns the stubbed export functions that were used and matter to the given check.
+func degradedFor(check string) (ret []string) {
+	for _, n := range slog.VerifDegradedUsed() {
+		if g, ok := snapUnitGroup[n]; ok {
+			matters := false
+			for _, t := range checkTouches[check] {
+				matters = matters || t == g
+			}
+			if !matters {
+				continue
+			}
+		}
+		ret = append(ret, n)
+	}
+	return
+}
+
 func register(d *CheckDef) { checks[d.ID] = d }
 
 // snap0 is the package-global state of hedzr/logg right after init.
@@ -248,6 +280,9 @@ func main() {
 			raw = wrap.Case
 		}
 		v := d.Replay(raw)
+		if dg := degradedFor(*check); len(dg) > 0 {
+			v = nil // part of the instrumentation was stubbed for this tree and the case used it: no verdict
+		}
 		res := map[string]any{"violated": v != nil}
 		if v != nil {
 			res["sig"] = v.Sig
@@ -300,6 +335,13 @@ func main() {
 		d.Run(c)
 	}()
 	c.res.WallS = time.Since(t0).Seconds()
+	if dg := degradedFor(*check); len(dg) > 0 {
+		// part of the instrumentation was stubbed for this tree (a private identifier it reads no longer
+		// exists in that form) and this check used it: what it observed is not trustworthy, no verdict
+		c.res.Violations = nil
+		c.res.Flags["exhaustive"] = false
+		c.res.Notes = append(c.res.Notes, "DEGRADED: stubbed instrumentation used: "+strings.Join(dg, ", "))
+	}
 	for k := range c.outcomes {
 		c.res.Outcomes = append(c.res.Outcomes, k)
 	}
